@@ -827,6 +827,14 @@ def linear(e, consts_used=None):
 		if not b:
 			return ({v: c * kb for v, c in a.items()}, ka * kb)
 		return ({leaf_key(e): 1}, 0)
+	if k == 'bin' and e[1] in ('Div', 'Rem', 'Shl', 'Shr', 'BitAnd', 'BitOr'):
+		# constant folding only (both operands evaluate to constants)
+		a, ka = linear(e[2], consts_used)
+		b, kb = linear(e[3], consts_used)
+		if not a and not b and not (e[1] in ('Div', 'Rem') and kb == 0) and kb >= 0:
+			return ({}, {'Div': lambda x, y: x // y, 'Rem': lambda x, y: x % y, 'Shl': lambda x, y: x << y, 'Shr': lambda x, y: x >> y,
+				'BitAnd': lambda x, y: x & y, 'BitOr': lambda x, y: x | y}[e[1]](ka, kb))
+		return ({leaf_key(e): 1}, 0)
 	if k == 'call':
 		tail = (e[1] or '').rsplit('::', 1)[-1]
 		if tail in _ARITH_CALLS and len(e[2]) == 2:
